@@ -148,6 +148,12 @@ pub fn main(args: &[String]) {
             }
             // --- the Coq case
             let locals = obs.pm.locals.get(&fid_index).cloned().unwrap_or_default();
+            let (log_ov, mlog_ov) = {
+                let fix = |mut lg: Vec<String>, lf: &LocalFunction| { let ids = irdump::seq_ids(lf); irdump::fix_seq_type(&mut lg, lf, &ids); lg.into_iter().map(|e| if e == "EInstr" { "EInstr (IBr 0) 0".to_string() } else if e == "EHook" { "EHook (IBr 0)".to_string() } else { e }).collect::<Vec<_>>() };
+                let a = { let lf = obs.module.funcs.get(fid).kind.unwrap_local(); let mut rec = crate::gen_ir_print::HookRec::default(); dfs_in_order(&mut rec, lf, lf.entry_block()); fix(rec.log, lf) };
+                let b = { let lfm = obs.module.funcs.get_mut(fid).kind.unwrap_local_mut(); let entry = lfm.entry_block(); let mut rec = crate::gen_ir_print::HookRecMut::default(); dfs_pre_order_mut(&mut rec, lfm, entry); let lg = rec.log; let lf = obs.module.funcs.get(fid).kind.unwrap_local(); fix(lg, lf) };
+                (a, b)
+            };
             let (results, entry_ty_idx, ir, log, args) = {
                 let lf = obs.module.funcs.get(fid).kind.unwrap_local();
                 let ty = obs.module.types.get(lf.ty());
@@ -171,7 +177,7 @@ pub fn main(args: &[String]) {
                 // entity operands according to the EMITTED binary: every u32 index immediate and every memarg's memory
                 let expected_refs: usize = body_out.ops.iter().map(|o| { let a = crate::ops::op_args(o.2);
                     if matches!(o.2, "Block" | "Loop" | "If" | "Br" | "BrIf" | "BrTable") { 0 } else { a.iter().filter(|(_, t)| t == "u32" || t.ends_with("MemArg")).count() } }).sum();
-                for (which, lg) in [("dfs_in_order", &log), ("dfs_pre_order_mut", &mlog)] {
+                for (which, lg) in [("dfs_in_order", &log), ("dfs_pre_order_mut", &mlog), ("dfs_in_order (visitor overriding the per-instruction hooks)", &log_ov), ("dfs_pre_order_mut (visitor overriding the per-instruction hooks)", &mlog_ov)] {
                     let n_vis = lg.iter().filter(|e| e.starts_with("EInstr")).count();
                     let n_ref = lg.iter().filter(|e| e.starts_with("ERef")).count();
                     let starts: Vec<&String> = lg.iter().filter(|e| e.starts_with("EStart")).collect();
@@ -185,7 +191,7 @@ pub fn main(args: &[String]) {
                     if n_ref != expected_refs { bad.push(format!("{} entity-operand callbacks for {} entity operands", n_ref, expected_refs)); }
                     if !bad.is_empty() {
                         let class = if n_ref != expected_refs && bad.len() == 1 { format!("{}:entity-operands-not-visited-exactly-once", which) } else { format!("{}:traversal-broken", which) };
-                        viol.push(Json::obj(vec![("class", Json::s(class)), ("props", Json::s("C16")), ("what", Json::s(format!("{} on function {} with default per-variant hooks: {}", which, fidx, bad.join("; ")))),
+                        viol.push(Json::obj(vec![("class", Json::s(class)), ("props", Json::s("C16")), ("what", Json::s(format!("{} on function {}: {}", which, fidx, bad.join("; ")))),
                             ("input", Json::s(crate::c03::hex(&wasm))), ("observed", Json::s(lg.iter().take(40).cloned().collect::<Vec<_>>().join("; ")))]));
                     }
                 }
@@ -197,8 +203,8 @@ pub fn main(args: &[String]) {
                 assoc(&obs.em.funcs), assoc(&obs.em.types), assoc(&obs.em.tables), assoc(&obs.em.memories), assoc(&obs.em.globals), assoc(&obs.em.data), assoc(&obs.em.elements));
             let local_tys: Vec<String> = locals.iter().map(|l| { let loc = obs.module.locals.iter().find(|x| x.id().index() == *l).unwrap(); format!("({}, {})", l, crate::gen_ir_print::valty(&loc.ty())) }).collect();
             let out_locals: Vec<String> = body_out.locals.iter().map(|(c, t)| format!("({}, {})", c, wp_vt(t))).collect();
-            let line = format!("Build_bcase {} [{}] {} {} [{}] [{}] [{}] [{}] {} {} [{}] [{}] [{}]", i2id, types.join("; "), entry_ty_idx, results, ops_in.join("; "),
-                ir.iter().map(|(k, v)| format!("({}, {})", k, v)).collect::<Vec<_>>().join("; "), log.join("; "), mlog.join("; "), id2i, nlist(&args), local_tys.join("; "), out_locals.join("; "), out_terms.join("; "));
+            let line = format!("Build_bcase {} [{}] {} {} [{}] [{}] [{}] [{}] [{}] [{}] {} {} [{}] [{}] [{}]", i2id, types.join("; "), entry_ty_idx, results, ops_in.join("; "),
+                ir.iter().map(|(k, v)| format!("({}, {})", k, v)).collect::<Vec<_>>().join("; "), log.join("; "), mlog.join("; "), log_ov.join("; "), mlog_ov.join("; "), id2i, nlist(&args), local_tys.join("; "), out_locals.join("; "), out_terms.join("; "));
             let sig = format!("{:?}", body_in.ops.iter().map(|o| o.0.clone()).collect::<Vec<_>>());
             if distinct.insert(sig) { w.push(&line); if samples.len() < 2 && body_in.ops.len() > 6 && body_in.ops.len() < 16 { samples.push(ops_in.join("; ")); } }
         }
